@@ -347,3 +347,223 @@ m('rep3_threshold_defaulted', 'harmful', 'C03', RP,
   '            .ok_or(Error::InvalidMinSigners)?,', '            .unwrap_or(2),', 'missing threshold record silently replaced by 2')
 m('rep3_wrong_sign', 'harmful', 'C11', RP,
   '        share = share + s.to_scalar();', '        share = share - s.to_scalar();', 'sigmas subtracted')
+
+# ---------------------------------------------------------------------------------------------------------------------
+# frost-rerandomized (unit frost_rerandomized, C17)
+m('rr_regen_other_error_value', 'benign', 'C17', RR,
+  '        .ok_or(Error::SerializationError)?;\n        Ok(Self(SerializableScalar(randomizer)))\n    }\n}', '        .ok_or(Error::InvalidSignature)?;\n        Ok(Self(SerializableScalar(randomizer)))\n    }\n}',
+  'refusing hash reported with another error value')
+m('rr_regen_preimage_swapped', 'harmful', 'C17', RR,
+  '                randomizer_seed,\n                &encode_group_commitments(signing_commitments)?,\n            ]', '                &encode_group_commitments(signing_commitments)?,\n                randomizer_seed,\n            ]',
+  'randomizer = hash(commitments || seed)')
+m('rr_regen_doubled', 'harmful', 'C17', RR,
+  '        Ok(Self(SerializableScalar(randomizer)))\n    }\n}', '        Ok(Self(SerializableScalar(randomizer + randomizer)))\n    }\n}', 'randomizer doubled')
+m('rr_pregen_other_error_value', 'benign', 'C17', RR,
+  '        let randomizer =\n            Randomizer::regenerate_from_seed_and_commitments(randomizer_seed, signing_commitments)?;\n        Ok(Self::from_randomizer(group_verifying_key, randomizer))',
+  '        let randomizer = match Randomizer::regenerate_from_seed_and_commitments(randomizer_seed, signing_commitments) {\n            Ok(r) => r,\n            Err(_) => return Err(Error::SerializationError),\n        };\n        Ok(Self::from_randomizer(group_verifying_key, randomizer))',
+  'every failure to regenerate reported as SerializationError')
+m('rr_pregen_wrong_randomizer', 'harmful', 'C17', RR,
+  '            Randomizer::regenerate_from_seed_and_commitments(randomizer_seed, signing_commitments)?;\n        Ok(Self::from_randomizer(group_verifying_key, randomizer))',
+  '            Randomizer::regenerate_from_seed_and_commitments(randomizer_seed, signing_commitments)?;\n        Ok(Self::from_randomizer(group_verifying_key, Randomizer::from_scalar(randomizer.to_scalar() + randomizer.to_scalar())))',
+  'parameters for twice the regenerated randomizer')
+m('rr_pregen_fixed_seed', 'harmful', 'C17', RR,
+  '            Randomizer::regenerate_from_seed_and_commitments(randomizer_seed, signing_commitments)?;\n        Ok(Self::from_randomizer(group_verifying_key, randomizer))',
+  '            Randomizer::regenerate_from_seed_and_commitments(&[], signing_commitments)?;\n        Ok(Self::from_randomizer(group_verifying_key, randomizer))',
+  'seed ignored')
+m('rr_new_other_error_value', 'benign', 'C17', RR,
+  '        Ok((\n            Self::regenerate_from_seed_and_commitments(&randomizer_seed, signing_commitments)?,\n            randomizer_seed,\n        ))',
+  '        let randomizer = match Self::regenerate_from_seed_and_commitments(&randomizer_seed, signing_commitments) {\n            Ok(r) => r,\n            Err(_) => return Err(Error::SerializationError),\n        };\n        Ok((randomizer, randomizer_seed))',
+  'every failure to derive the randomizer reported as SerializationError')
+m('rr_new_seed_not_drawn', 'harmful', 'C16', RR,
+  '        rng.fill_bytes(&mut randomizer_seed);\n', '', 'seed is all zeros, nothing drawn')
+m('rr_new_other_seed_returned', 'harmful', 'C17', RR,
+  '            Self::regenerate_from_seed_and_commitments(&randomizer_seed, signing_commitments)?,\n            randomizer_seed,\n        ))',
+  '            Self::regenerate_from_seed_and_commitments(&randomizer_seed, signing_commitments)?,\n            alloc::vec![0; ns],\n        ))',
+  'the returned seed is not the one the randomizer was derived from')
+m('rr_pnew_other_error_value', 'benign', 'C17', RR,
+  '        let (randomizer, randomizer_seed) =\n            Randomizer::new_from_commitments(rng, signing_commitments)?;',
+  '        let (randomizer, randomizer_seed) = match Randomizer::new_from_commitments(rng, signing_commitments) {\n            Ok(p) => p,\n            Err(_) => return Err(Error::SerializationError),\n        };',
+  'every failure reported as SerializationError')
+m('rr_pnew_wrong_randomizer', 'harmful', 'C17', RR,
+  '            Self::from_randomizer(group_verifying_key, randomizer),\n            randomizer_seed,',
+  '            Self::from_randomizer(group_verifying_key, Randomizer::from_scalar(randomizer.to_scalar() + randomizer.to_scalar())),\n            randomizer_seed,',
+  'parameters for twice the randomizer of the returned seed')
+m('rr_pnew_other_seed_returned', 'harmful', 'C17', RR,
+  '            Self::from_randomizer(group_verifying_key, randomizer),\n            randomizer_seed,\n        ))',
+  '            Self::from_randomizer(group_verifying_key, randomizer),\n            alloc::vec![0; 32],\n        ))',
+  'a constant seed is returned')
+m('rr_sign_extra_early_refusal', 'benign', 'C17', RR,
+  '    let randomized_params =\n        RandomizedParams::from_randomizer(key_package.verifying_key(), randomizer);\n',
+  '    if signing_package.signing_commitment(key_package.identifier()).is_none() {\n        return Err(Error::MissingCommitment);\n    }\n    let randomized_params =\n        RandomizedParams::from_randomizer(key_package.verifying_key(), randomizer);\n',
+  'missing own commitment refused first (refused by core signing anyway; wins over the threshold refusal now)')
+m('rr_sign_unrandomized_package', 'harmful', 'C17', RR,
+  '    let randomized_key_package = key_package.randomize(&randomized_params)?;\n    frost::round2::sign(signing_package, signer_nonces, &randomized_key_package)\n}\n\n/// Re-randomized FROST signing using the given `randomizer_seed`',
+  '    let randomized_key_package = key_package.randomize(&randomized_params)?;\n    frost::round2::sign(signing_package, signer_nonces, key_package)\n}\n\n/// Re-randomized FROST signing using the given `randomizer_seed`',
+  'signs with the ORIGINAL key package')
+m('rr_sign_params_for_other_key', 'harmful', 'C17', RR,
+  '        RandomizedParams::from_randomizer(key_package.verifying_key(), randomizer);\n',
+  '        RandomizedParams::from_randomizer(&frost::VerifyingKey::new(key_package.verifying_share().to_element()), randomizer);\n',
+  'randomized group key derived from the verifying SHARE')
+m('rr_signseed_extra_early_refusal', 'benign', 'C17', RR,
+  '    let randomized_params = RandomizedParams::regenerate_from_seed_and_commitments(\n        key_package.verifying_key(),\n        randomizer_seed,',
+  '    if signing_package.signing_commitment(key_package.identifier()).is_none() {\n        return Err(Error::MissingCommitment);\n    }\n    let randomized_params = RandomizedParams::regenerate_from_seed_and_commitments(\n        key_package.verifying_key(),\n        randomizer_seed,',
+  'missing own commitment refused first')
+m('rr_signseed_unrandomized_package', 'harmful', 'C17', RR,
+  '    let randomized_key_package = key_package.randomize(&randomized_params)?;\n    frost::round2::sign(signing_package, signer_nonces, &randomized_key_package)\n}\n\n/// Re-randomized FROST signature share aggregation',
+  '    let randomized_key_package = key_package.randomize(&randomized_params)?;\n    frost::round2::sign(signing_package, signer_nonces, key_package)\n}\n\n/// Re-randomized FROST signature share aggregation',
+  'signs with the ORIGINAL key package')
+m('rr_signseed_seed_ignored', 'harmful', 'C17', RR,
+  '        key_package.verifying_key(),\n        randomizer_seed,\n        signing_package.signing_commitments(),', '        key_package.verifying_key(),\n        &[],\n        signing_package.signing_commitments(),',
+  'seed ignored')
+m('rr_agg_extra_early_refusal', 'benign', 'C17', RR,
+  '    let randomized_public_key_package = pubkeys.randomize(randomized_params)?;\n    frost::aggregate(',
+  '    if let Some(min_signers) = pubkeys.min_signers() {\n        if signature_shares.len() < min_signers as usize {\n            return Err(Error::IncorrectNumberOfShares);\n        }\n    }\n    let randomized_public_key_package = pubkeys.randomize(randomized_params)?;\n    frost::aggregate(',
+  'too few shares refused first (refused by core aggregation anyway; wins over the participant-set refusal now)')
+m('rr_agg_unrandomized_package', 'harmful', 'C17', RR,
+  '    frost::aggregate(\n        signing_package,\n        signature_shares,\n        &randomized_public_key_package,\n    )', '    frost::aggregate(\n        signing_package,\n        signature_shares,\n        pubkeys,\n    )',
+  'aggregates with the ORIGINAL public key package')
+m('rr_agg_params_ignored', 'harmful', 'C17', RR,
+  '    let randomized_public_key_package = pubkeys.randomize(randomized_params)?;\n    frost::aggregate(',
+  '    let randomized_public_key_package = pubkeys.randomize(&RandomizedParams::from_randomizer(pubkeys.verifying_key(), Randomizer::from_scalar(<<C::Group as Group>::Field as Field>::one())))?;\n    frost::aggregate(',
+  'aggregates with parameters for the randomizer 1')
+m('rr_aggc_extra_early_refusal', 'benign', 'C17', RR,
+  '    let randomized_public_key_package = pubkeys.randomize(randomized_params)?;\n    frost::aggregate_custom(',
+  '    if let Some(min_signers) = pubkeys.min_signers() {\n        if signature_shares.len() < min_signers as usize {\n            return Err(Error::IncorrectNumberOfShares);\n        }\n    }\n    let randomized_public_key_package = pubkeys.randomize(randomized_params)?;\n    frost::aggregate_custom(',
+  'too few shares refused first')
+m('rr_aggc_unrandomized_package', 'harmful', 'C17', RR,
+  '        signature_shares,\n        &randomized_public_key_package,\n        cheater_detection,', '        signature_shares,\n        pubkeys,\n        cheater_detection,',
+  'aggregates with the ORIGINAL public key package')
+m('rr_aggc_detection_disabled', 'harmful', 'C17', RR,
+  '        &randomized_public_key_package,\n        cheater_detection,\n    )', '        &randomized_public_key_package,\n        CheaterDetection::Disabled,\n    )',
+  'cheater detection silently disabled')
+
+# ---------------------------------------------------------------------------------------------------------------------
+# codecs (C12; checked with VERIF_NO_RT=1, so every C12 run also carries the reason "concrete validation runner unavailable":
+# a benign mutant is one whose only OTHER reason is "exact-result clause .. fails while every property-level clause holds")
+m('cd_sk_zero_other_error_value', 'benign', 'C12', SK,
+  '            return Err(Error::MalformedSigningKey);', '            return Err(FieldError::InvalidZeroScalar.into());', 'zero signing key refused with another error value')
+m('cd_sk_zero_accepted', 'harmful', 'C12', SK,
+  '        if scalar == <<C::Group as Group>::Field as Field>::zero() {\n            return Err(Error::MalformedSigningKey);\n        }\n', '', 'zero signing key accepted')
+m('cd_sk_other_scalar', 'harmful', 'C12', SK,
+  '        Ok(Self { scalar })\n    }\n\n    /// Return the underlying scalar.', '        Ok(Self { scalar: scalar + scalar })\n    }\n\n    /// Return the underlying scalar.', 'from_scalar stores twice the scalar')
+m('cd_sk_deserialize_skips_zero_check', 'harmful', 'C12', SK,
+  '        Self::from_scalar(SerializableScalar::deserialize(bytes)?.0)', '        Ok(Self { scalar: SerializableScalar::deserialize(bytes)?.0 })', 'SigningKey::deserialize accepts the zero key')
+m('cd_sk_deserialize_other_error_value', 'benign', 'C12', SK,
+  '        Self::from_scalar(SerializableScalar::deserialize(bytes)?.0)',
+  '        match SerializableScalar::deserialize(bytes) {\n            Ok(s) => Self::from_scalar(s.0),\n            Err(_) => Err(Error::MalformedSigningKey),\n        }',
+  'every undecodable key string reported as MalformedSigningKey')
+m('cd_sk_deserialize_other_value', 'harmful', 'C12', SK,
+  '        Self::from_scalar(SerializableScalar::deserialize(bytes)?.0)', '        Self::from_scalar(SerializableScalar::deserialize(bytes)?.0 + <<C::Group as Group>::Field as Field>::one())', 'decoded key is off by one')
+m('cd_id_zero_other_error_value', 'benign', 'C12', IDF,
+  '            Err(FieldError::InvalidZeroScalar.into())', '            Err(Error::MalformedIdentifier)', 'zero identifier refused with another error value')
+m('cd_id_zero_accepted', 'harmful', 'C12', IDF,
+  '        if scalar == <<C::Group as Group>::Field>::zero() {\n            Err(FieldError::InvalidZeroScalar.into())\n        } else {\n            Ok(Self(SerializableScalar(scalar)))\n        }', '        Ok(Self(SerializableScalar(scalar)))',
+  'zero identifier accepted')
+m('cd_id_check_inverted', 'harmful', 'C12', IDF,
+  '        if scalar == <<C::Group as Group>::Field>::zero() {\n            Err(FieldError', '        if scalar != <<C::Group as Group>::Field>::zero() {\n            Err(FieldError', 'only the zero identifier accepted')
+m('cd_id_derive_other_error_value', 'benign', 'C12', IDF,
+  '.ok_or(Error::IdentifierDerivationNotSupported)?;', '.ok_or(Error::MalformedIdentifier)?;', 'missing HID reported with another error value')
+m('cd_id_derive_skips_zero_check', 'harmful', 'C12', IDF,
+  '        let scalar = C::HID(s).ok_or(Error::IdentifierDerivationNotSupported)?;\n        Self::new(scalar)', '        let scalar = C::HID(s).ok_or(Error::IdentifierDerivationNotSupported)?;\n        Ok(Self(SerializableScalar(scalar)))',
+  'derive accepts a zero hash')
+m('cd_id_derive_other_value', 'harmful', 'C12', IDF,
+  '        let scalar = C::HID(s).ok_or(Error::IdentifierDerivationNotSupported)?;\n        Self::new(scalar)', '        let scalar = C::HID(s).ok_or(Error::IdentifierDerivationNotSupported)?;\n        Self::new(scalar + scalar)',
+  'derive returns twice the hash')
+m('cd_id_deserialize_other_error_value', 'benign', 'C12', IDF,
+  '        Self::new(SerializableScalar::deserialize(bytes)?.0)',
+  '        match SerializableScalar::deserialize(bytes) {\n            Ok(s) => Self::new(s.0),\n            Err(_) => Err(Error::MalformedIdentifier),\n        }',
+  'every undecodable identifier string reported as MalformedIdentifier')
+m('cd_id_deserialize_skips_zero_check', 'harmful', 'C12', IDF,
+  '        Self::new(SerializableScalar::deserialize(bytes)?.0)', '        Ok(Self(SerializableScalar::deserialize(bytes)?))', 'Identifier::deserialize accepts zero')
+m('cd_id_deserialize_other_value', 'harmful', 'C12', IDF,
+  '        Self::new(SerializableScalar::deserialize(bytes)?.0)', '        Self::new(SerializableScalar::deserialize(bytes)?.0 + <<C::Group as Group>::Field>::one())', 'decoded identifier is off by one')
+m('cd_sig_wrong_len_other_error_value', 'benign', 'C12', SIG,
+  '        if bytes.len() != R_bytes_len + z_bytes_len {\n            return Err(Error::MalformedSignature);', '        if bytes.len() != R_bytes_len + z_bytes_len {\n            return Err(Error::InvalidSignature);',
+  'wrong-length signature refused with another error value')
+m('cd_sig_z_decoded_first', 'benign', 'C12', SIG,
+  '        Ok(Self {\n            R: <C::Group>::deserialize(&R_serialization)?,\n            z: <<C::Group as Group>::Field>::deserialize(&z_serialization)?,\n        })',
+  '        let z = <<C::Group as Group>::Field>::deserialize(&z_serialization)?;\n        let R = <C::Group>::deserialize(&R_serialization)?;\n        Ok(Self { R, z })',
+  'z decoded before R (other error when both halves are bad)')
+m('cd_sig_accepts_longer', 'harmful', 'C12', SIG,
+  '        if bytes.len() != R_bytes_len + z_bytes_len {', '        if bytes.len() < R_bytes_len + z_bytes_len {', 'trailing bytes accepted')
+m('cd_sig_z_wrong_offset', 'harmful', 'C12', SIG,
+  '                .get(R_bytes_len..R_bytes_len + z_bytes_len)', '                .get(0..z_bytes_len)', 'z taken from offset 0')
+m('cd_sigser_other_error_value', 'benign', 'C12', SIG,
+  '        let R_serialization = <C::Group>::serialize(&self.R)?;\n        let z_serialization = <<C::Group as Group>::Field>::serialize(&self.z);\n\n        let R_bytes',
+  '        let R_serialization = match <C::Group>::serialize(&self.R) {\n            Ok(s) => s,\n            Err(_) => return Err(Error::MalformedSignature),\n        };\n        let z_serialization = <<C::Group as Group>::Field>::serialize(&self.z);\n\n        let R_bytes',
+  'identity R refused with another error value')
+m('cd_sigser_z_then_R', 'harmful', 'C12', SIG,
+  '        bytes.extend(R_bytes);\n        bytes.extend(z_bytes);', '        bytes.extend(z_bytes);\n        bytes.extend(R_bytes);', 'signature encoded as z || R')
+m('cd_sigser_R_twice', 'harmful', 'C12', SIG,
+  '        bytes.extend(R_bytes);\n        bytes.extend(z_bytes);', '        bytes.extend(R_bytes);\n        bytes.extend(R_bytes);', 'signature encoded as R || R')
+m('cd_vss_whole_other_error_value', 'benign', 'C12', K,
+  '            return Err(Error::InvalidCoefficient);', '            return Err(Error::IncorrectNumberOfCommitments);', 'trailing bytes refused with another error value')
+m('cd_vss_whole_remainder_ignored', 'harmful', 'C12', K,
+  '        if !serialized_coefficient_commitments.remainder().is_empty() {\n            return Err(Error::InvalidCoefficient);\n        }\n', '', 'trailing bytes ignored')
+m('cd_vss_whole_check_inverted', 'harmful', 'C12', K,
+  '        if !serialized_coefficient_commitments.remainder().is_empty() {', '        if serialized_coefficient_commitments.remainder().is_empty() {', 'only strings WITH trailing bytes accepted')
+m('cd_share_other_error_value', 'benign', 'C12', K,
+  '        Ok(Self(SerializableScalar::deserialize(bytes)?))\n    }\n\n    /// Serialize to bytes\n    pub fn serialize(&self) -> Vec<u8> {\n        self.0.serialize()\n    }\n\n    /// Computes the signing share from a list of coefficients.',
+  '        match SerializableScalar::deserialize(bytes) {\n            Ok(s) => Ok(Self(s)),\n            Err(_) => Err(Error::MalformedSigningKey),\n        }\n    }\n\n    /// Serialize to bytes\n    pub fn serialize(&self) -> Vec<u8> {\n        self.0.serialize()\n    }\n\n    /// Computes the signing share from a list of coefficients.',
+  'every undecodable share string reported as MalformedSigningKey')
+m('cd_share_other_value', 'harmful', 'C12', K,
+  '        Ok(Self(SerializableScalar::deserialize(bytes)?))\n    }\n\n    /// Serialize to bytes\n    pub fn serialize(&self) -> Vec<u8> {\n        self.0.serialize()\n    }\n\n    /// Computes the signing share from a list of coefficients.',
+  '        Ok(Self(SerializableScalar(SerializableScalar::deserialize(bytes)?.0 + <<C::Group as Group>::Field>::one())))\n    }\n\n    /// Serialize to bytes\n    pub fn serialize(&self) -> Vec<u8> {\n        self.0.serialize()\n    }\n\n    /// Computes the signing share from a list of coefficients.',
+  'decoded share is off by one')
+m('cd_share_garbage_accepted', 'harmful', 'C12', K,
+  '        Ok(Self(SerializableScalar::deserialize(bytes)?))\n    }\n\n    /// Serialize to bytes\n    pub fn serialize(&self) -> Vec<u8> {\n        self.0.serialize()\n    }\n\n    /// Computes the signing share from a list of coefficients.',
+  '        match SerializableScalar::deserialize(bytes) {\n            Ok(s) => Ok(Self(s)),\n            Err(_) => Ok(Self(SerializableScalar(<<C::Group as Group>::Field>::one()))),\n        }\n    }\n\n    /// Serialize to bytes\n    pub fn serialize(&self) -> Vec<u8> {\n        self.0.serialize()\n    }\n\n    /// Computes the signing share from a list of coefficients.',
+  'undecodable strings decode to 1')
+m('cd_vk_other_error_value', 'benign', 'C12', VK,
+  '        Ok(Self::new(SerializableElement::deserialize(bytes)?.0))',
+  '        match SerializableElement::deserialize(bytes) {\n            Ok(e) => Ok(Self::new(e.0)),\n            Err(_) => Err(Error::MalformedVerifyingKey),\n        }',
+  'every undecodable key string reported as MalformedVerifyingKey')
+m('cd_vk_other_value', 'harmful', 'C12', VK,
+  '        Ok(Self::new(SerializableElement::deserialize(bytes)?.0))', '        Ok(Self::new(SerializableElement::deserialize(bytes)?.0 + <C::Group>::generator()))', 'decoded key shifted by G')
+m('cd_vk_garbage_accepted', 'harmful', 'C12', VK,
+  '        Ok(Self::new(SerializableElement::deserialize(bytes)?.0))',
+  '        match SerializableElement::deserialize(bytes) {\n            Ok(e) => Ok(Self::new(e.0)),\n            Err(_) => Ok(Self::new(<C::Group>::generator())),\n        }',
+  'undecodable strings decode to G')
+m('cd_scalar_other_value', 'harmful', 'C12', SER,
+  '        let scalar = <<C::Group as Group>::Field>::deserialize(&serialized)?;\n        Ok(Self(scalar))', '        let scalar = <<C::Group as Group>::Field>::deserialize(&serialized)?;\n        Ok(Self(scalar + scalar))',
+  'decoded scalar doubled')
+m('cd_scalar_garbage_accepted', 'harmful', 'C12', SER,
+  '        let scalar = <<C::Group as Group>::Field>::deserialize(&serialized)?;\n        Ok(Self(scalar))',
+  '        let scalar = match <<C::Group as Group>::Field>::deserialize(&serialized) {\n            Ok(s) => s,\n            Err(_) => <<C::Group as Group>::Field>::zero(),\n        };\n        Ok(Self(scalar))',
+  'out-of-range scalar strings decode to 0')
+m('cd_scalar_decode_error_other_value', 'benign', 'C12', SER,
+  '        let scalar = <<C::Group as Group>::Field>::deserialize(&serialized)?;\n        Ok(Self(scalar))',
+  '        let scalar = match <<C::Group as Group>::Field>::deserialize(&serialized) {\n            Ok(s) => s,\n            Err(_) => return Err(Error::MalformedSigningKey),\n        };\n        Ok(Self(scalar))',
+  'out-of-range scalar refused with another error value')
+m('cd_element_other_value', 'harmful', 'C12', SER,
+  '        let scalar = <C::Group as Group>::deserialize(&serialized)?;\n        Ok(Self(scalar))', '        let scalar = <C::Group as Group>::deserialize(&serialized)?;\n        Ok(Self(scalar + scalar))',
+  'decoded element doubled')
+m('cd_element_garbage_accepted', 'harmful', 'C12', SER,
+  '        let scalar = <C::Group as Group>::deserialize(&serialized)?;\n        Ok(Self(scalar))',
+  '        let scalar = match <C::Group as Group>::deserialize(&serialized) {\n            Ok(s) => s,\n            Err(_) => <C::Group as Group>::generator(),\n        };\n        Ok(Self(scalar))',
+  'undecodable element strings decode to G')
+m('cd_element_decode_error_other_value', 'benign', 'C12', SER,
+  '        let scalar = <C::Group as Group>::deserialize(&serialized)?;\n        Ok(Self(scalar))',
+  '        let scalar = match <C::Group as Group>::deserialize(&serialized) {\n            Ok(s) => s,\n            Err(_) => return Err(Error::MalformedVerifyingKey),\n        };\n        Ok(Self(scalar))',
+  'undecodable element refused with another error value')
+
+# batch.rs (C19)
+m('bt_empty_other_error_value', 'benign', 'C19', B,
+  '        if n == 0 {\n            return Err(Error::InvalidSignature);', '        if n == 0 {\n            return Err(Error::IncorrectNumberOfShares);', 'empty batch refused with another error value')
+m('bt_failed_other_error_value', 'benign', 'C19', B,
+  '            Ok(())\n        } else {\n            Err(Error::InvalidSignature)\n        }', '            Ok(())\n        } else {\n            Err(Error::MalformedSignature)\n        }', 'failing batch refused with another error value')
+m('bt_empty_accepted', 'harmful', 'C19', B,
+  '        if n == 0 {\n            return Err(Error::InvalidSignature);\n        }\n', '', 'empty batch accepted')
+m('bt_no_cofactor', 'harmful', 'C19', B,
+  '        if (check * <C::Group>::cofactor()) == <C::Group>::identity() {', '        if check == <C::Group>::identity() {', 'cofactor not cleared')
+m('bt_blinder_reused', 'harmful', 'C16', B,
+  '            VK_coeffs.push(<<C::Group as Group>::Field>::zero() + (blind * item.c.0));', '            VK_coeffs.push(<<C::Group as Group>::Field>::zero() + item.c.0);', 'key coefficient without the blinder')
+m('bt_item_other_error_value', 'benign', 'C19', B,
+  '        let c = <C>::challenge(&sig.R, &vk, &msg)?;\n\n        Ok(Self {',
+  '        let c = match <C>::challenge(&sig.R, &vk, &msg) {\n            Ok(c) => c,\n            Err(_) => return Err(Error::InvalidSignature),\n        };\n\n        Ok(Self {',
+  'missing challenge reported as InvalidSignature')
+m('bt_item_challenge_for_other_key', 'harmful', 'C19', B,
+  '        let c = <C>::challenge(&sig.R, &vk, &msg)?;\n\n        Ok(Self {', '        let c = <C>::challenge(&sig.R, &VerifyingKey::new(sig.R), &msg)?;\n\n        Ok(Self {',
+  'challenge computed for the key R')
+m('bt_item_keeps_other_signature', 'harmful', 'C19', B,
+  '            vk: *vk,\n            sig: *sig,\n            c,', '            vk: *vk,\n            sig: Signature::new(sig.R, sig.z + sig.z),\n            c,', 'item stores a different response')
